@@ -47,7 +47,20 @@ class Connection:
         return self._process_not_unique(previous)
     else:
       self._gfa = gfa
-      self._initialize_references()
+      try:
+        self._initialize_references()
+      except:
+        # the line is refused: take back the references set up so far
+        # and the virtual lines created only for them
+        self._remove_field_backreferences()
+        self._remove_field_references()
+        self._remove_nonfield_backreferences()
+        self._remove_nonfield_references()
+        self._gfa = None
+        for line in gfa.lines:
+          if line.virtual and not line.all_references:
+            line.disconnect()
+        raise
       self._gfa._register_line(self)
       return None
 
